@@ -293,6 +293,11 @@ type Set struct {
 	Inline       bool   `json:"inline,omitempty"`   // written as wire.NewSet(...) wherever referenced
 	AliasOf      int    `json:"alias_of,omitempty"` // id+1 of the set variable this one is an alias of (var A = B); 0 = none
 	Grouped      bool   `json:"grouped,omitempty"`  // declared inside a var ( ... ) group
+	// BlankSibling: members of a set assigned to _ in the same var spec, BEFORE this one
+	// (var _, Name = wire.NewSet(<blank sibling>), wire.NewSet(<members>)); the model ignores it.
+	BlankSibling []Ref `json:"blank_sibling,omitempty"`
+	// SiblingAfter: the same with the blank name after this one (var Name, _ = ...)
+	SiblingAfter bool `json:"sibling_after,omitempty"`
 }
 
 // Param is an injector parameter.
